@@ -65,7 +65,7 @@ Proof. exact tan_unit_independent. Qed.
     [uniform D dt h]: never held, duty cycle D and step dt at every instant of h. *)
 Theorem C07_whole_run_partial : forall (c c' : @chain RA) load load' dt0 dt0' W0 TM I0 IM L JJ DT D ops ops' p w p' w' st st',
   same_system c c' load load' dt0 dt0' W0 TM I0 IM L JJ DT ->
-  I0 / IM < D -> 0 <= I0 /\ 0 < IM /\ 0 < W0 /\ 0 < JJ ->
+  I0 / IM < Rabs D -> 0 <= I0 /\ 0 < IM /\ 0 < W0 /\ 0 < JJ ->
   exec c load ops (initial p w) = Ok st -> exec c' load' ops' (initial p' w') = Ok st' ->
   uniform D dt0 (y_hist st) -> uniform D dt0' (y_hist st') ->
   forall t0 s0 pre t0' s0' pre', y_hist st = (pre ++ [(t0, s0)])%list -> y_hist st' = (pre' ++ [(t0', s0')])%list ->
